@@ -222,13 +222,18 @@ def closeEq (a b : Int) : Bool := a == b
 
 def handle (args : List String) : String :=
   match args with
-  | mode :: rm :: root :: rest =>
+  | modeTok :: rm :: root :: rest =>
+    -- `impl/10`: the digits say which repaired revisions the working tree contains (F1, F7a)
+    let mode := (modeTok.splitOn "/").headD ""
+    let flags := ((modeTok.splitOn "/").getD 1 "11").toList
+    let fixF1 := flags.getD 0 '1' == '1'
+    let fix7a := flags.getD 1 '1' == '1'
     match root.toNat?, (do
         let p ← pGPat
         let g ← pGraph
         pure (p, g) : Parser (GPat × Graph)).run rest with
     | some root, some ((p, g), []) =>
-      let E : Env := { p := p, g := g, close := closeEq }
+      let E : Env := { p := p, g := g, close := closeEq, fixF1 := fixF1 }
       let rm := isTrue rm
       match mode with
       | "impl" =>
@@ -240,7 +245,7 @@ def handle (args : List String) : String :=
         s!"S{sols.length}" ++ String.join (sols.map (fun s => " || " ++ showSol s))
       | "commute" =>
         if !p.ctorOk then "CTOR-ERR" else
-        (match commute p with
+        (match commute fix7a p with
          | .error .assertion => "ERR:assertion"
          | .error .valueError => "ERR:valueerror"
          | .error .notImplemented => "ERR:notimplemented"
